@@ -94,31 +94,59 @@ func init() {
 	// fmt.Errorf with %w: result wraps its error operand(s)
 	externs["fmt.Errorf"] = func(f *Frame, b *ssa.BasicBlock, in *ssa.Call, args []Val, st *State, g string) Val {
 		e := f.e
-		e.note("assumed contract: fmt.Errorf returns a fresh non-nil error; errors.Is(result, x) holds for every error operand x of the variadic list (all uses in scope wrap with %w)")
+		e.note("assumed contract: fmt.Errorf returns a fresh non-nil error e with errors.Is(e, x) <=> x == e or errors.Is(op, x) for an operand op of error type (every error operand in the module is formatted with %w)")
 		e.declErrIs()
 		r := f.allocRef(st, "err")
 		tag := e.tagOfName("*fmt.wrapError")
 		res := e.freshConst(hname(f, in, "errorf"), "Iface")
 		e.assume(eq(res, app("mk_iface", itoa(tag), r)))
-		// operands: args[1] is []interface{}
-		if len(args) > 1 && args[1].KLen > 0 {
+		x := e.fresh("x!ew")
+		alts := []string{eq(x, res)}
+		if in != nil && len(args) > 1 && args[1].KLen > 0 {
 			h := e.arrHeap(types.NewInterfaceType(nil, nil))
+			isErr := variadicErrorOperands(in)
 			for j := 0; j < args[1].KLen-1; j++ {
+				if j < len(isErr) && !isErr[j] {
+					continue
+				}
 				op := sel(sel(st.H(h), app("s_arr", args[1].T)), app("+", app("s_off", args[1].T), itoa(j)))
-				// if the operand is an error (any tag registered as error type) it is wrapped
-				e.declRaw("is_error_tag", "(declare-fun is_error_tag (Int) Bool)")
-				e.assume(implies(and(app("is_error_tag", app("i_tag", op)), not(eq(app("i_tag", op), "0"))), app("errors_is", res, op)))
-				x := e.fresh("x!ew")
-				e.assume(fmt.Sprintf("(forall ((%s Iface)) (! (=> (and (is_error_tag (i_tag %s)) (errors_is %s %s)) (errors_is %s %s)) :pattern ((errors_is %s %s))))", x, op, op, x, res, x, op, x))
+				alts = append(alts, and(not(eq(app("i_tag", op), "0")), app("errors_is", op, x)))
 			}
 		}
+		// guarded by the path condition: references allocated on different branches may coincide
+		e.assume(implies(g, fmt.Sprintf("(forall ((%s Iface)) (! (= (errors_is %s %s) %s) :pattern ((errors_is %s %s)) :qid errorf_is))", x, res, x, or(alts...), res, x)))
 		return Val{T: res}
 	}
 	externWrites["fmt.Errorf"] = noWrites
 	externs["fmt.Sprintf"] = func(f *Frame, b *ssa.BasicBlock, in *ssa.Call, args []Val, st *State, g string) Val {
-		f.e.note("assumed contract: fmt.Sprintf returns an unconstrained string, no heap effect")
-		return Val{T: f.e.freshConst(hname(f, in, "sprintf"), "Str")}
+		e := f.e
+		e.note("assumed contract: fmt.Sprintf returns an unconstrained string, no heap effect; Sprintf(\"%v\", s) of a string s is s")
+		res := e.freshConst(hname(f, in, "sprintf"), "Str")
+		if in != nil {
+			if c, ok := in.Call.Args[0].(*ssa.Const); ok && c.Value != nil && c.Value.ExactString() == `"%v"` && len(args) > 1 && args[1].KLen == 2 {
+				h := e.arrHeap(types.NewInterfaceType(nil, nil))
+				op := sel(sel(st.H(h), app("s_arr", args[1].T)), app("s_off", args[1].T))
+				strTag := e.tagOf(types.Typ[types.String])
+				e.assume(implies(eq(app("i_tag", op), itoa(strTag)), eq(res, e.unbox(types.Typ[types.String], app("i_val", op)))))
+			}
+		}
+		return Val{T: res}
 	}
+	// strings.Join(elems, sep): for two elements a + sep + b; otherwise an uninterpreted string
+	externs["strings.Join"] = func(f *Frame, b *ssa.BasicBlock, in *ssa.Call, args []Val, st *State, g string) Val {
+		e := f.e
+		e.note("assumed contract: strings.Join(s, sep) = s[0]+sep+s[1] for two elements, s[0] for one, \"\" for none; no heap effect")
+		res := e.freshConst(hname(f, in, "join"), "Str")
+		h := e.arrHeap(types.Typ[types.String])
+		s := args[0].T
+		el := func(i string) string { return sel(sel(st.H(h), app("s_arr", s)), app("+", app("s_off", s), i)) }
+		e.assume(implies(eq(app("s_len", s), "0"), eq(res, "str_empty")))
+		e.assume(implies(eq(app("s_len", s), "1"), eq(res, el("0"))))
+		e.assume(implies(eq(app("s_len", s), "2"), eq(res, app("str_cat", app("str_cat", el("0"), args[1].T), el("1")))))
+		return Val{T: res}
+	}
+	externWrites["strings.Join"] = noWrites
+	externReads["strings.Join"] = func(fn *ssa.Function) []hkey { return nil }
 	externWrites["fmt.Sprintf"] = noWrites
 	externs["fmt.Printf"] = func(f *Frame, b *ssa.BasicBlock, in *ssa.Call, args []Val, st *State, g string) Val {
 		f.e.note("assumed contract: fmt.Printf has no effect on module memory")
@@ -152,6 +180,61 @@ func init() {
 	}
 	externWrites["(*sync.Mutex).Lock"] = noWrites
 	externWrites["(*sync.Mutex).Unlock"] = noWrites
+}
+
+// variadicErrorOperands: for a call f(format, a...) whose variadic slice is built in place, which operands
+// have a static type implementing error.
+func variadicErrorOperands(in *ssa.Call) []bool {
+	if len(in.Call.Args) < 2 {
+		return nil
+	}
+	sl, ok := in.Call.Args[len(in.Call.Args)-1].(*ssa.Slice)
+	if !ok {
+		return nil
+	}
+	al, ok := sl.X.(*ssa.Alloc)
+	if !ok {
+		return nil
+	}
+	arr, ok := al.Type().Underlying().(*types.Pointer).Elem().Underlying().(*types.Array)
+	if !ok {
+		return nil
+	}
+	out := make([]bool, arr.Len())
+	errT := types.Universe.Lookup("error").Type().Underlying().(*types.Interface)
+	for _, ref := range *al.Referrers() {
+		ia, ok := ref.(*ssa.IndexAddr)
+		if !ok {
+			continue
+		}
+		c, ok := ia.Index.(*ssa.Const)
+		if !ok {
+			for i := range out {
+				out[i] = true
+			}
+			return out
+		}
+		for _, r2 := range *ia.Referrers() {
+			if st, ok := r2.(*ssa.Store); ok {
+				var src types.Type
+				switch v := st.Val.(type) {
+				case *ssa.MakeInterface:
+					src = v.X.Type()
+				case *ssa.ChangeInterface:
+					src = v.X.Type()
+				default:
+					src = st.Val.Type()
+				}
+				if types.Implements(src, errT) || types.Implements(types.NewPointer(src), errT) {
+					out[c.Int64()] = true
+				}
+				if it, isI := src.Underlying().(*types.Interface); isI && it.NumMethods() == 0 {
+					out[c.Int64()] = true // interface{}: may hold an error
+				}
+			}
+		}
+	}
+	return out
 }
 
 func (e *Enc) tagOfName(name string) int {
